@@ -156,7 +156,14 @@ def adaptive_keeps_high_loss_points(S):
     from tpv import tsum
 
     # obtain the actual terms: evaluate schema at q gives (m >= loss[q]) / (m <= loss[q])
-    f_max, f_min = mm[0]([q[0]]), mm[1]([q[0]])
+    # which reduction is the maximum is read off the direction of its bound (m >= loss[i] / m <= loss[i]), not off
+    # the order in which the code happens to compute them
+    facts = [fn([q[0]]) for fn in mm]
+    is_max = [f.decl().kind() == z3.Z3_OP_GE for f in facts]
+    S.ensure("one-maximum-and-one-minimum-of-the-loss", sorted(is_max) == [False, True])
+    if sorted(is_max) != [False, True]:
+        return
+    f_max, f_min = (facts[0], facts[1]) if is_max[0] else (facts[1], facts[0])
     m_max, m_min = f_max.arg(0), f_min.arg(0)
     thresh = m_min + (m_max - m_min) * u
     kept = lr >= thresh
